@@ -20,7 +20,7 @@ RULE_FED = ("fedlab part: (a) two hand-written federations -- an interface whose
             "the operations reach (plan-time and runtime types, plus up to two unreached ones; closed across interfaces "
             "except for the second set of every third configuration). For every operation the decision functions range over "
             "all coordinates an authorizer can be asked about for it (response positions and the collector's list, which "
-            "includes planner-added @key/@requires inputs): all 2^n when n <= 6, else 200 (thorough) / 64 (quick) random ones "
+            "includes planner-added @key/@requires inputs): all 2^n when n <= 6, else 200 random ones "
             "incl. allow-all and deny-all; each runs through ExecutionEngine.Execute with engine.WithAuthorizer (post-fetch) "
             "and with engine.WithPreFetchFieldAuthorizer (pre-fetch). Operations whose un-authorized run already differs "
             "from the monolith are skipped (C01 territory). A run is non-trivial when at least one denied position holds a "
@@ -32,7 +32,7 @@ KNOWN = [
     ("gate-entity-fetch-below-fragment-has-no-root-fields", r"^fetch_gate/no-rootfields "),
     ("merged-field-keeps-rule-of-unconditioned-occurrence", r"^(denied_absent|denied_reported|sentinel_absent|collector_complete)/merged "),
     ("prefetch-gate-starves-fetch-depending-on-denied-input",
-     r"^(requires_input_intact |(allowed_untouched|propagates_like_null)/hidden-input\[)"),
+     r"^(requires_input_intact |(allowed_untouched|propagates_like_null)/input-fetch-held-back\[)"),
 ]
 
 KNOWN_TEXT = {
@@ -72,7 +72,7 @@ def _distribution(cases, results):
     d = {"operation_lines": 0, "run_lines": 0, "skipped_baseline_diverges": 0, "modes": {}, "optypes": {},
          "runs_with_denied_position": 0, "runs_with_effective_denial": 0, "runs_protected_abstract_parent": 0,
          "runs_protected_two_paths": 0, "runs_reference_skipped_mixed": 0, "runs_with_requires_dependents": 0,
-         "runs_with_hidden_denied_input": 0, "requests_sent": 0, "requests_saved_vs_baseline": 0,
+         "runs_with_held_back_input_fetch": 0, "requests_sent": 0, "requests_saved_vs_baseline": 0,
          "planned_fetches_held_back": 0, "gate_verdicts_compared": 0, "plans_with_protected_coordinate": 0,
          "decision_domain_sizes": {}, "denied_positions_per_run": {}}
     for c in cases:
@@ -108,8 +108,8 @@ def _distribution(cases, results):
             m = re.search(r"\(dependent (\d+)\)", c)
             if m and int(m.group(1)) > 0:
                 d["runs_with_requires_dependents"] += 1
-            if re.search(r'\(hidden "', c):
-                d["runs_with_hidden_denied_input"] += 1
+            if re.search(r'\(starving \d', c):
+                d["runs_with_held_back_input_fetch"] += 1
             for g in re.finditer(r"\(g \d+ \"[^\"]*\" \w+ \(roots[^)]*(?:\([^)]*\))*\) (\w) (\w) (\w)\)", c):
                 if g.group(2) == "t":
                     d["gate_verdicts_compared"] += 1
@@ -156,8 +156,8 @@ def run_fed(chk):
         return state, allcases
     exe, model = b
     quick = chk.tier == "quick"
-    maxd = 64 if quick else 200
-    ncfg = 130 if quick else 2500
+    maxd = 200
+    ncfg = 110 if quick else 1500
     for i, cmd in enumerate(_corpus_cmds(exe)):
         bb = vlib.run_batch(chk, "%s %s -maxd %d -out {out}" % (exe, cmd, maxd), model, "fed_corpus%d" % i, timeout=3000)
         if bb:
